@@ -140,8 +140,20 @@ func c10Handshake(add bool, reply string, at string, wdFirst bool) (string, stri
 						time.Sleep(50 * time.Microsecond)
 					}
 					if !conn.isClosed() {
+						// the held call is a Write that stalls (or a Read with nothing to read): the context ended 2 s ago
+						// and nothing closed the connection - exactly what the watchdog is for (model: H1Write / H2Write
+						// with st1 / st2 are left only through h_closed; handshake_returns_when_context_ends)
 						a.reply <- c04Reply{err: io.ErrClosedPipe}
-						return "infeasible watchdog did not close the connection", "-"
+						select {
+						case <-done:
+						case <-time.After(c04Infeasible):
+						}
+						ctl.ungate()
+						_ = conn.Close()
+						return "infeasible watchdog did not close the connection", fmt.Sprintf(
+							"FAIL:C10 handshake: the context ended while the hello goroutine was held in connection call %d (%s) "+
+								"and the connection was not closed within %v: a stalled %s keeps Connect from returning",
+							step, a.kind, c04Infeasible, a.kind)
 					}
 				}
 			}
